@@ -102,6 +102,11 @@ impl Property for C03 {
                     max_responses: 32,
                     keep_alive: true,
                 };
+                // every other session: the responses are fetched through the send+receive shorthands
+                if i % 2 == 1 {
+                    crate::sim::wirerun::VIA_COMMAND.with(|v| v.set(session.len()));
+                    acc.inc("runs_through_command_shorthands");
+                }
                 let out = run(&spec);
                 acc.inc("evaluations");
                 acc.count("responses_compared", out.items.iter().filter(|i| matches!(i, Item::Resp(_))).count() as u64);
@@ -148,7 +153,7 @@ impl Property for C03 {
     fn meta(&self, _cfg: &Cfg, _acc: &Acc) -> Meta {
         Meta {
             level: "exploration",
-            rule: "random abstract sessions of 1-6 responses (0-8 frames, 0-30 fields, keyword-like keys/values, empty/non-ASCII/CR/NUL/10 KiB values, <=1 binary part per frame at any position with hostile payloads, ACK errors incl. u64::MAX codes, single and list form; every 16th session lands on a 4096*2^k buffer edge) encoded by the harness's reference encoder and decoded by the real blocking and async connections under whole, byte-at-a-time and random segmentation; compared structurally through the public API incl. Ok(None) after the last response; non-trivial = session with >=2 responses or a binary part or an error; distinct by hash of the encoded bytes".into(),
+            rule: "random abstract sessions of 1-6 responses (0-8 frames, 0-30 fields, keyword-like keys/values, empty/non-ASCII/CR/NUL/10 KiB values, <=1 binary part per frame at any position with hostile payloads, ACK errors incl. u64::MAX codes, single and list form; every 16th session lands on a 4096*2^k buffer edge) encoded by the harness's reference encoder and decoded by the real blocking and async connections (receive(), and in every other session the command()/command_list() shorthands) under whole, byte-at-a-time and random segmentation; compared structurally through the public API incl. Ok(None) after the last response; non-trivial = session with >=2 responses or a binary part or an error; distinct by hash of the encoded bytes".into(),
             nontrivial_set: "nontrivial",
             assumptions: vec![
                 "normalisation at the protocol's non-injective points: one-frame list form == single form; successful empty list == one empty frame; a failing command has no frame (output it printed before its ACK belongs to no successful command and is dropped)".into(),
@@ -158,6 +163,7 @@ impl Property for C03 {
             exhaustive: None,
             floors: vec![
                 ("binary_payloads".into(), 20),
+                ("runs_through_command_shorthands".into(), 100),
                 ("list_with_error".into(), 5),
                 ("errors_after_partial_output".into(), 5),
                 ("responses_after_binary".into(), 5),
